@@ -5,13 +5,14 @@ C08: composition of the grid model of the float leaf (`Leaf.num k`, `dumpsNum`) 
 values under that row are bounded grid numbers is the text the real `FloatType.dumps` writes for the nearest double,
 `float()` of that text is that double, and printing it again gives the same text.
 
-NOT covered here (the numbers are `Int` fields of hand-written structures rendered by the hand-written handlers of
-`Model/XmlCustom.lean` / `XmlBlocks.lean` with `dumpsNum` directly, not `Leaf.num` under a `FloatType` row):
-position / speaker position (bounds, screenEdgeLock), channelLock maxDistance, objectDivergence, zoneExclusion, gain
-(element and attribute forms, dB), jumpPosition interpolationLength (`SecondsType`), positionOffset, frequency,
-the reference-screen centre position / width, gainInteractionRange / positionInteractionRange, the alternativeValueSet
-contents, Matrix coefficient gain.  For these the leaf-level `floatCodec_refines` / `secondsCodec_refines` still have to
-be applied by the reader.
+The hand-written handlers (`Model/XmlCustom.lean` / `XmlBlocks.lean`) hold their numbers as `Int` fields written with
+`dumpsNum` directly; they are traversed handler by handler: the five gain handlers (`gainRow_texts`), jumpPosition
+interpolationLength as `SecondsType` (`jumpRow_texts`), and through `siteSpecs` / `siteRow_texts`: Objects position,
+DirectSpeakers position with bounds, channelLock maxDistance, objectDivergence, zoneExclusion, positionOffset,
+frequency, reference-screen centre position / width, gain / position interaction ranges.  `custom_rows_classified`
+(kernel-decided on the regenerated table) says no other number-writing handler pair occurs in the tables.
+Which texts of a written element are number texts is specified per handler (text / attribute names), not derived.
+A gain in dB (`XV.gainDB`, dB bounds of a gain interaction range) is symbolic and never written.
 -/
 import Earverif.Proofs.C08Float
 import Earverif.Proofs.C08Tables
@@ -391,6 +392,10 @@ frequency, screen centre position / width, interaction ranges -/
 
 open Earverif.XmlCustom
 
+/-- the number texts of one written element under a `SiteSpec` -/
+def numSites (textNum : Bool) (keys : List String) (x : Xml) : List String :=
+  (if textNum then [x.text] else []) ++ (x.attrs.filter fun kv => keys.contains kv.1).map Prod.snd
+
 def boundNums (b : Bound) : List ℤ := b.value :: (b.max.toList ++ b.min.toList)
 def irangeNums (r : IRange) : List ℤ := r.min.toList ++ r.max.toList
 def gainLin : Option Gain → List ℤ
@@ -697,13 +702,15 @@ theorem obj_siteTexts_real (v2 : Bool) (rows : List Row) (o : Obj XV) (hb : ObjS
   exact ⟨sp.arg, v, k, hv, hk, realFloatText_dumpsNum k (h1 k hk)⟩
 
 /-- table obligation: every hand-written handler pair of the regenerated tables is one of: a gain handler, jumpPosition,
-a `siteSpecs` handler, the "not before BS.2076-2" refusal (writes nothing), or a handler that only delegates to a
+a `siteSpecs` handler, the "not before BS.2076-2" refusal (writes nothing), the `zone` row of the inner zoneExclusion
+parser (modelled as a whole by the zoneExclusion entry of `siteSpecs`), or a handler that only delegates to a
 nested parser of the table (block formats, Matrix, loudnessMetadata, alternativeValueSet, audioObjectInteraction,
 reference screen) — so no number-writing hand-written handler is outside `obj_numTexts_real` / `obj_siteTexts_real` -/
 theorem custom_rows_classified :
     ∀ t ∈ Earverif.Gen.C08.parsers, ∀ r ∈ t.2, (r.kind = "CustomElement" ∨ r.kind = "GenericElement") →
       isGainRow r = true ∨ isJumpRow r = true ∨ siteSpecs.any (fun sp => isSiteRow sp r) = true ∨
       r.handler = "make_no_element_before_v2.<locals>.handle / make_no_element_before_v2.<locals>.to_xml" ∨
+      r.handler = "handle_zone / zones_to_xml" ∨
       r.handler = "MainElementHandler.make_block_format_matrix_handler.<locals>.handle_matrix / MainElementHandler.make_block_format_matrix_handler.<locals>.matrix_to_xml" ∨
       r.handler = "MainElementHandler.make_block_format_handler.<locals>.handle / MainElementHandler.make_block_format_handler.<locals>.to_xml" ∨
       (r.handler = "ElementParser.as_handler.<locals>.handle / ElementParser.as_handler.<locals>.to_xml" ∧
